@@ -18,7 +18,9 @@ def plan(tier):
             "stale_ones_behind_end_after_truncate_or_pop", "k_larger_than_vector",
             "rs_clone_queried", "rs_serde_roundtrip_queried", "rs_serde_roundtrip_with_equal_rank_run",
             "two_consecutive_superblocks_without_ones", "two_consecutive_superblocks_without_zeros",
-            "wm_clone_queried", "wm_serde_roundtrip_queried",
+            "wm_clone_queried", "wm_serde_roundtrip_queried", "rs_clone_from_into_used_object",
+            "rs_original_and_copy_both_continue", "wm_clone_from_into_used_object",
+            "wm_original_and_copy_both_continue",
             "more_than_65535_ones_in_a_superblock", "more_than_65535_zeros_in_a_superblock",
             "more_than_128_superblocks_sparse", "more_than_128_superblocks", "big_single_superblock",
             "wm_exhaustive_small", "wm_len_at_superblock_boundary", "wm_padded_levels", "wm_single_symbol_text"],
